@@ -626,9 +626,10 @@ int disasm_riscv_comp(
             immediate);
           return 2;
         case OP_COMP_RD:
+          // rd' is in bits 9-7 (the same field as rs1').
           snprintf(instruction, length, "%s %s",
             instr,
-            riscv_reg_names[rd + 8]);
+            riscv_reg_names[rs1 + 8]);
           return 2;
         case OP_COMP_RD_RS2:
           snprintf(instruction, length, "%s %s, %s",
